@@ -1,7 +1,10 @@
 package c04
 
 import (
+	"encoding/base64"
 	"encoding/hex"
+	"github.com/jcmturner/gokrb5/v8/client"
+	"github.com/jcmturner/gokrb5/v8/service"
 	"io"
 	"log"
 	"strings"
@@ -18,6 +21,8 @@ import (
 	"github.com/jcmturner/gokrb5/v8/test/testdata"
 	"github.com/jcmturner/gokrb5/v8/types"
 
+	"verifsim/refkrb/der"
+	"verifsim/refkrb/rcrypto"
 	"verifsim/refkrb/rk"
 )
 
@@ -125,6 +130,34 @@ func points() []point {
 		{"ClientClaimsInfo.Unmarshal", "binary", hxs(testdata.MarshaledPAC_ClientClaimsInfoStr, testdata.MarshaledPAC_ClientClaimsInfoInt, testdata.MarshaledPAC_ClientClaimsInfoMulti, testdata.MarshaledPAC_ClientClaimsInfoMultiUint, testdata.MarshaledPAC_ClientClaimsInfoMultiStr, testdata.MarshaledPAC_ClientClaimsInfo_XPRESS_HUFF), func(b []byte) { var v pac.ClientClaimsInfo; v.Unmarshal(b) }},
 		{"S4UDelegationInfo.Unmarshal", "binary", hxs(testdata.MarshaledPAC_Kerb_Validation_Info), func(b []byte) { var v pac.S4UDelegationInfo; v.Unmarshal(b) }},
 		{"DeviceInfo.Unmarshal", "binary", hxs(testdata.MarshaledPAC_Kerb_Validation_Info), func(b []byte) { var v pac.DeviceInfo; v.Unmarshal(b) }},
+		{"DeviceClaimsInfo.Unmarshal", "binary", hxs(testdata.MarshaledPAC_ClientClaimsInfoStr, testdata.MarshaledPAC_ClientClaimsInfoMulti), func(b []byte) { var v pac.DeviceClaimsInfo; v.Unmarshal(b) }},
+		// PAC credentials (PAC_CREDENTIAL_INFO: version, etype, data encrypted under the AS reply key) and what is inside
+		{"CredentialsInfo.Unmarshal", "binary", [][]byte{pacCredentialsInfo()}, func(b []byte) { var v pac.CredentialsInfo; v.Unmarshal(b, testKey) }},
+		{"CredentialData.Unmarshal", "binary", hxs(testdata.MarshaledPAC_Kerb_Validation_Info), func(b []byte) { var v pac.CredentialData; v.Unmarshal(b) }},
+		{"SECPKGSupplementalCred.Unmarshal", "binary", hxs(testdata.MarshaledPAC_Kerb_Validation_Info), func(b []byte) { var v pac.SECPKGSupplementalCred; v.Unmarshal(b) }},
+		{"NTLMSupplementalCred.Unmarshal", "binary", [][]byte{append([]byte{0, 0, 0, 0, 0xc0, 0, 0, 0}, make([]byte, 32)...), append([]byte{0, 0, 0, 0, 0x80, 0, 0, 0}, make([]byte, 16)...)}, func(b []byte) {
+			var v pac.NTLMSupplementalCred
+			v.Unmarshal(b)
+		}},
+		// single elements of the sequences above, and what a KDC puts into padata
+		{"Checksum.Unmarshal", "der", [][]byte{rk.Checksum{Type: 16, Sum: []byte("0123456789ab")}.Enc()}, func(b []byte) { var v types.Checksum; v.Unmarshal(b) }},
+		{"PAData.Unmarshal", "der", [][]byte{firstElement(hx(testdata.MarshaledKRB5padata_sequence))}, func(b []byte) {
+			var v types.PAData
+			if v.Unmarshal(b) == nil {
+				v.GetETypeInfo()
+				v.GetETypeInfo2()
+			}
+		}},
+		{"PAEncTimestamp.Unmarshal", "der", hxs(testdata.MarshaledKRB5enc_data), func(b []byte) { var v types.PAEncTimestamp; v.Unmarshal(b) }},
+		{"PAReqEncPARep.Unmarshal", "der", [][]byte{rk.Checksum{Type: 16, Sum: []byte("0123456789ab")}.Enc()}, func(b []byte) { var v types.PAReqEncPARep; v.Unmarshal(b) }},
+		{"AuthorizationDataEntry.Unmarshal", "der", [][]byte{firstElement(hx(testdata.MarshaledKRB5authorization_data))}, func(b []byte) { var v types.AuthorizationDataEntry; v.Unmarshal(b) }},
+		{"ETypeInfoEntry.Unmarshal", "der", [][]byte{firstElement(hx(testdata.MarshaledKRB5etype_info))}, func(b []byte) { var v types.ETypeInfoEntry; v.Unmarshal(b) }},
+		{"ETypeInfo2Entry.Unmarshal", "der", [][]byte{firstElement(hx(testdata.MarshaledKRB5etype_info2))}, func(b []byte) { var v types.ETypeInfo2Entry; v.Unmarshal(b) }},
+		{"ParseSPNString", "text", [][]byte{[]byte("HTTP/host.test.gokrb5@TEST.GOKRB5"), []byte("krbtgt/A.B/C.D@E.F")}, func(b []byte) {
+			pn, _ := types.ParseSPNString(string(b))
+			pn.PrincipalNameString()
+			pn.GetSalt("R")
+		}},
 		// kpasswd
 		{"kadmin.Reply", "binary", hxs(testdata.MarshaledKpasswd_Rep), func(b []byte) {
 			var v kadmin.Reply
@@ -163,6 +196,14 @@ func points() []point {
 				c.GetKpasswdServers("TEST.GOKRB5", true)
 				c.JSON()
 			}
+		}},
+		// HTTP Basic credentials handed to the Kerberos password authenticator (header value from a client)
+		{"KRB5BasicAuthenticator", "text", [][]byte{[]byte(base64.StdEncoding.EncodeToString([]byte("testuser1@TEST.GOKRB5:passwordvalue"))),
+			[]byte(base64.StdEncoding.EncodeToString([]byte("TEST.GOKRB5\\testuser1:pass:word"))), []byte(base64.StdEncoding.EncodeToString([]byte("testuser1:p")))}, func(b []byte) {
+			// no KDC is configured for any realm: a header that parses ends in a login error at once
+			a := service.NewKRB5BasicAuthenticator(string(b), config.New(), service.NewSettings(keytab.New()), client.NewSettings())
+			a.Authenticate()
+			a.Mechanism()
 		}},
 		{"config.NewFromReader", "text", [][]byte{[]byte(testdata.KRB5_CONF)}, func(b []byte) {
 			// a reader that hands out the file in short reads and then fails mid-stream
@@ -354,4 +395,28 @@ func ccacheOfVersion(v int) []byte {
 		out = data(out, nil)
 	}
 	return out
+}
+
+// firstElement returns the first element of a DER SEQUENCE OF.
+func firstElement(seq []byte) []byte {
+	n, _, err := der.Parse(seq)
+	if err != nil {
+		panic("testdata: " + err.Error())
+	}
+	k, _, err := der.Parse(n.Content)
+	if err != nil {
+		panic("testdata: " + err.Error())
+	}
+	return k.Raw
+}
+
+// pacCredentialsInfo builds a PAC_CREDENTIAL_INFO buffer: version 0, etype 18, and a blob sealed
+// under testKey with key usage 16 (the plaintext is NDR-framed data of another structure: what is
+// exercised undamaged is the path header - decryption - NDR decoder).
+func pacCredentialsInfo() []byte {
+	ct, err := rcrypto.Encrypt(18, testKey.KeyValue, 16, hx(testdata.MarshaledPAC_Kerb_Validation_Info), []byte("0123456789abcdef"))
+	if err != nil {
+		panic("pacCredentialsInfo: " + err.Error())
+	}
+	return append([]byte{0, 0, 0, 0, 18, 0, 0, 0}, ct...)
 }
